@@ -12,6 +12,8 @@ result R and freshly built arguments A:
            snapshot of X must not move; then the sides swap.
 """
 
+import json
+
 from ..grammar import ALL_KINDS
 from ..history import HistoryCheck, is_inplace, method_kind, state_digest
 from ..snap import Snapshot, is_spec_instance, mutable_nodes
@@ -74,7 +76,7 @@ class C02(HistoryCheck):
     RUNS = {"quick": 1500, "thorough": 30000}
     # init=False attributes are never initialised on instances, so instance.attr *is* the class-level default
     # object and in-place element helpers edit it for every instance (C08 territory, and excluded there too).
-    PROFILE = {"allow_frozen": False, "allow_class_dnc": False, "allow_init_false": False, "allow_mutable_props": True, "allow_foreign_defaults": True,
+    PROFILE = {"allow_frozen": False, "allow_class_dnc": False, "allow_parent_class_dnc": True, "allow_init_false": False, "allow_mutable_props": True, "allow_foreign_defaults": True,
                "kinds": ALL_KINDS + ["any", "list_optleaf"]}
     # untyped attributes holding spec instances inside immutable containers (a tuple is hashable, not immutable in depth)
     ANY_EXTRA = [["tuple", [["leaf", {"p": 2}], 1]], ["tuple", [["list", [["leaf", {}]]], "s"]],
@@ -101,6 +103,16 @@ class C02(HistoryCheck):
         if not (is_copy and out.status == "ok" and is_spec_instance(out.value)):
             return out
         X, R = prep.target, out.value
+        if R is X and world.role_of(X) in ("host", "sub") and op.get("kw", {}).get("_if", True) is not False \
+                and '["sent", "UNCHANGED"]' not in json.dumps([op.get("args", []), op.get("kw", {})]):
+            # the "copy" is the receiver itself: everything is shared (only a call that is switched off -- by _if=False or
+            # by the UNCHANGED sentinel, which both mean "do nothing" -- hands the receiver back; classes declared
+            # do_not_copy as a whole are outside this check's grammar)
+            fam0, verb0, _, akind0 = mk if mk else ("deepcopy", "deepcopy", None, None)
+            ctx.evaluations += 1
+            ctx.violate({"invariant": "no_shared_mutable_state", "family": fam0, "verb": verb0, "attr_kind": akind0,
+                         "node_type": "the_receiver_itself"}, {"op": op}, idx)
+            return out
         if R is X or world.role_of(X) not in ("host", "sub") or world.role_of(R) != world.role_of(X):
             return out
         role = world.role_of(X)
